@@ -675,6 +675,9 @@ class CellsImpl(*_cells_impl_base):
             data = {}
         self.data.update(data)
         self.input_keys = set(data.keys())
+        for key in data:
+            # Input values have nodes in the graph, as assigned ones have
+            self.model.tracegraph.add_node(key_to_node(self, key))
 
         BaseNamespaceReferrer.__init__(self, space._namespace)
         self._namespace = self.parent._namespace
